@@ -2,6 +2,7 @@ package types
 
 import (
 	"fmt"
+	"reflect"
 )
 
 // JSONValue is an internal type used in storing various types, for converting any type to JSON supported type.
@@ -17,6 +18,40 @@ func ConvertValueList(values []interface{}) ([]interface{}, error) {
 		jsonValues = append(jsonValues, ConvertToJSONSupportedValue(val))
 	}
 	return jsonValues, nil
+}
+
+// HasNilValue reports whether v is nil or contains nil somewhere inside its maps, slices, arrays, structs or pointers.
+func HasNilValue(v interface{}) bool {
+	return hasNilReflectValue(reflect.ValueOf(v))
+}
+
+func hasNilReflectValue(rv reflect.Value) bool {
+	switch rv.Kind() {
+	case reflect.Invalid:
+		return true
+	case reflect.Ptr, reflect.Interface:
+		return rv.IsNil() || hasNilReflectValue(rv.Elem())
+	case reflect.Map:
+		iter := rv.MapRange()
+		for iter.Next() {
+			if hasNilReflectValue(iter.Value()) {
+				return true
+			}
+		}
+	case reflect.Slice, reflect.Array:
+		for i := 0; i < rv.Len(); i++ {
+			if hasNilReflectValue(rv.Index(i)) {
+				return true
+			}
+		}
+	case reflect.Struct:
+		for i := 0; i < rv.NumField(); i++ {
+			if rv.Type().Field(i).PkgPath == "" && hasNilReflectValue(rv.Field(i)) {
+				return true
+			}
+		}
+	}
+	return false
 }
 
 // ToInterfaceArray transforms an array of JSNValues to the array of interfaces
